@@ -1,7 +1,7 @@
 //! vh — verification harness for scpi-rs (runtime monitoring).
 //!
 //! `vh <Cnn> [--tier quick|thorough] [--seed N] [--threads T] [--out FILE] [--only STAGE:INDEX]
-//!     [--tiny] [--budget-s S] [--shard I/N] [--stages a,b] [--verbose]`
+//!     [--tiny] [--budget-s S] [--scale F] [--shard I/N] [--stages a,b] [--verbose]`
 //!
 //! Exit codes: 0 = run completed (violations, if any, are in the JSON report), 3 = watchdog
 //! suspect (printed as SUSPECT-HANG), anything else = harness failure.
@@ -41,6 +41,7 @@ fn main() {
         only: None,
         tiny: cfg!(miri),
         budget_s: 1e9,
+        scale: 1.0,
         started: Instant::now(),
         shard: (0, 1),
         stages: vec![],
@@ -87,6 +88,10 @@ fn main() {
             "--verbose" => cfg.verbose = true,
             "--budget-s" => {
                 cfg.budget_s = val(i).parse().expect("budget");
+                i += 1;
+            }
+            "--scale" => {
+                cfg.scale = val(i).parse().expect("scale");
                 i += 1;
             }
             "--hang-s" => {
